@@ -1,4 +1,6 @@
 import CoercionModel.Model.Sched
+import CoercionModel.Model.Skeletons
+import CoercionModel.Generated.F10
 set_option linter.unusedSimpArgs false
 /-
   C02 — At most Block.Concurrency sequences in flight; one block at a time.
@@ -122,5 +124,11 @@ def t : List Label := [.top, .acquire, .top, .acquire, .pass, .pass, .finish tru
 example : (run c {} t).map (fun s => (s.failures, s.started, s.pc, s.early)) = some (2, 2, .exited, true) := by decide
 -- the bound tol + conc = 2 is reached: it is tight
 example : (run c {} t).map (·.failures) = some 2 := by decide
+
+/-- the Go functions this property's model mirrors still have the shape the model was written against
+    (control-flow skeletons regenerated from /repo on every run, Model/Skeletons): executeSequences -/
+theorem facts_skeleton :
+    Generated.F10.executeSequences = Skeletons.executeSequences := by
+  decide
 
 end Coercion.C02
